@@ -61,6 +61,10 @@ func ToFunction(fn any) (Function, error) {
 			if len(result) != 1 {
 				return nil, fmt.Errorf("%w: doesn't return singleton", impl.ErrInvalidReturnType)
 			}
+			if result[0] == nil {
+				// (a nil item, as a custom function may return: it has no type to match)
+				return nil, fmt.Errorf("%w: got a nil item when type '%s' was expected", impl.ErrInvalidReturnType, rv.Type().In(i+1).Name())
+			}
 			if expectedType, gotType := rv.Type().In(i+1), reflect.TypeOf(result[0]); !gotType.AssignableTo(expectedType) {
 				return nil, fmt.Errorf("%w: got type '%s' when type '%s' was expected", impl.ErrInvalidReturnType, gotType.String(), expectedType.Name())
 			}
